@@ -1,3 +1,4 @@
+#include <stdint.h>
 #include <stdlib.h>
 #include <string.h>
 
@@ -83,11 +84,17 @@ void* edn_arena_alloc(edn_arena_t* arena, size_t size) {
         return NULL;
     }
 
-    size = (size + 7) & ~7;
+    /* Requests that cannot be rounded up or combined with the block header
+     * without wrapping around cannot be met */
+    if (size > SIZE_MAX - 7 - sizeof(arena_block_t)) {
+        return NULL;
+    }
+
+    size = (size + 7) & ~(size_t) 7;
 
     arena_block_t* block = arena->current;
 
-    if (block->used + size <= block->capacity) {
+    if (size <= block->capacity - block->used) {
         void* ptr = block->data + block->used;
         block->used += size;
         return ptr;
